@@ -137,20 +137,31 @@ impl Service {
         let pnames = ["p1", "p2"];
         let mut clients = Vec::new();
         for c in 0..nclients {
+            // occasionally names that differ only by a trailing blank or by case: distinct
+            // accounts as far as the service is concerned
+            let variant = |rng: &mut Rng, base: String| -> String {
+                match rng.below(12) {
+                    0 => format!("{base} "),
+                    1 => base.to_uppercase(),
+                    _ => base,
+                }
+            };
             let acct = |rng: &mut Rng| -> String {
-                if contended {
+                let base = if contended {
                     ["ua", "ub"][rng.below(2) as usize].to_string()
                 } else {
                     format!("c{c}{}", ["a", "b"][rng.below(2) as usize])
-                }
+                };
+                variant(rng, base)
             };
             let other_acct = |rng: &mut Rng| -> String {
-                if contended {
+                let base = if contended {
                     ["ua", "ub"][rng.below(2) as usize].to_string()
                 } else {
                     let o = (c + 1 + rng.below(nclients as u64 - 1) as usize) % nclients;
                     format!("c{o}{}", ["a", "b"][rng.below(2) as usize])
-                }
+                };
+                variant(rng, base)
             };
             let pw = |rng: &mut Rng| format!("pw{c}x{}", rng.below(2));
             let len = rng.range(3, if thorough { 12 } else { 9 }) as usize;
@@ -203,6 +214,25 @@ impl Service {
                     _ => Rq::ForgedList,
                 };
                 script.push(r);
+            }
+            if rng.chance(1, 10) {
+                // a client that hammers somebody else's account with wrong passwords
+                let target = if contended { ["ua", "ub"][rng.below(2) as usize].to_string() } else { format!("c{}a", (c + 1) % nclients) };
+                let k = rng.range(5, 7) as usize;
+                let mut hammer: Vec<Rq> = (0..k).map(|_| Rq::Login { name: target.clone(), pw: format!("pw{c}x{}", rng.below(2)) }).collect();
+                hammer.extend(script.into_iter().take(3));
+                script = hammer;
+            } else if rng.chance(1, 6) {
+                // log out and in again late in the script (with the password set last)
+                let last = script.iter().rev().find_map(|r| match r {
+                    Rq::Register { name, pw } | Rq::Update { name, pw } | Rq::Login { name, pw } => Some((name.clone(), pw.clone())),
+                    _ => None,
+                });
+                if let Some((name, pw)) = last {
+                    script.push(Rq::Logout);
+                    script.push(Rq::Login { name, pw });
+                    script.push(Rq::List);
+                }
             }
             clients.push(script);
         }
@@ -327,6 +357,8 @@ pub struct Run<'a> {
     /// per in-flight login: what the database call found
     /// tag -> None (no account found) | Some(None) (temporary account) | Some(Some(hash))
     pub login_found: BTreeMap<String, Option<Option<String>>>,
+    /// tag -> user name of the account document the login's lookup returned
+    pub login_found_name: BTreeMap<String, String>,
     /// account names registered by someone else while a rename away from them was half done
     pub tainted_names: BTreeSet<String>,
     /// names whose account went away (or was renamed) by a call whose acknowledgement was lost,
@@ -520,6 +552,12 @@ impl<'a> Run<'a> {
                                 .and_then(|(_, _, d)| doc_str(&d, "password"))
                         });
                         self.login_found.insert(tag.clone(), found);
+                        let uname = ev.read.first().and_then(|(id, _)| {
+                            mongodb::sim::dump(&self.w.db, crate::config::USER_COLL).into_iter().find(|(i, _, _)| i == id).and_then(|(_, _, d)| doc_str(&d, "username"))
+                        });
+                        if let Some(u) = uname {
+                            self.login_found_name.insert(tag.clone(), u);
+                        }
                     }
                 }
             }
@@ -623,6 +661,13 @@ impl<'a> Run<'a> {
         match rq {
             Rq::Register { .. } => {}
             Rq::Login { name, pw } => {
+                // O4: the account looked up is the one named, byte for byte
+                if let Some(found_name) = self.login_found_name.remove(tag) {
+                    if found_name != *name && ok {
+                        let v = Violation::new("O4-login", "looked-up-another-account", format!("client {c} logged in as {name:?} (acknowledged) but the credential checked was that of account {found_name:?}"));
+                        self.viol(v);
+                    }
+                }
                 // O4: acknowledged iff the stored credential was produced from this password
                 if let Some(found) = self.login_found.remove(tag) {
                     let expect = match &found {
@@ -960,6 +1005,7 @@ async fn run_world(svc_cfg: &Service, case: &SrvCase, dec: Decisions, seed_for_k
         hash_plain: BTreeMap::new(),
         plaintexts: BTreeSet::new(),
         login_found: BTreeMap::new(),
+        login_found_name: BTreeMap::new(),
         tainted_names: BTreeSet::new(),
         orphan_sessions: Vec::new(),
         relaxed_names: BTreeSet::new(),
